@@ -72,6 +72,21 @@ FdrOK(x, r) ==
        \E i \in lo..hi : r[k] * i = FdrUnit * n * x[k]
   /\ \A k, j \in Idx(x) : (k < j /\ x[k] = x[j] /\ x[k] > 0) => r[k] # r[j]
 
+\* Weighted moments on the dyadic-exact cases (E3).  The weights are a[i] / W with
+\* integers a[i] >= 0 and W = Sum(a) a power of two (passed raw with normalizeWeights, or
+\* already divided by W); every intermediate of the documented formulas
+\*    m = sum w_i x_i ,  cov = sum w_i (x_i - mx)(y_i - my) ,  unbiased: cov / (1 - sum w_i^2)
+\* is then an exactly representable dyadic, so the result is required bit-exactly:
+\*    cov = CovNum / W^3   and   unbiased cov = CovNum / (W * WQ)   with the integers below.
+CovNum(x, y, a) == LET W == Sum(a) IN
+                   Sum([i \in Idx(x) |-> (W * x[i] - Dot(x, a)) * (W * y[i] - Dot(y, a)) * a[i]])
+WQ(a) == Sum(a) * Sum(a) - Dot(a, a)
+\* num is the returned value at scale 2^12 (or the sentinel when it is not on that scale)
+WCovValueOK(x, y, a, unbiased, num) ==
+  LET W == Sum(a)  N == CovNum(x, y, a) IN
+  IF ~unbiased THEN num = (4096 \div (W * W * W)) * N
+  ELSE (4096 * N) % (W * WQ(a)) = 0 => num * (W * WQ(a)) = 4096 * N   \* exact quotient: must be returned exactly
+
 \* ----------------------------------------------------------------- outcomes
 \* o \in {"ok", "raise", "fault"}: "raise" = a bpp::Exception subclass of class c
 \* (template arguments stripped); "fault" = anything else thrown; a crash / hang
@@ -211,6 +226,19 @@ Value(t, op, x, y, z, k, o, c, r, X, Y, Z) ==
               /\ r = (4096 \div (n * n * n)) *
                      Sum([i \in Idx(x) |-> (n * x[i] - Sum(x)) * (n * w[i] - Sum(w))])
     [] op = "Fdr"     -> o = "ok" /\ FdrOK(x, r)
+    \* weighted mean / covariance / variance, every (unbiased, normalizeWeights) combination; k = <<unbiased, normalize, pre>>
+    \* (MeanW: <<normalize, pre>>), pre = 1: the weights were divided by their sum before the call.  r = <<value at scale
+    \* 2^12 (MeanW: 2^4), is NaN, is negative, var bit-equal to cov(x,x,w) with the same flags, sd is NaN>> as 0/1 flags.
+    [] op = "MeanW"   -> IF Len(x) # Len(y) THEN o = "raise"
+                         ELSE o = "ok" /\ r[2] = 0 /\ r[1] * Sum(y) = 16 * Dot(x, y)
+    [] op = "CovW"    -> IF Len(x) # Len(y) THEN Raises(o, c, DIM)
+                         ELSE IF Len(x) # Len(z) THEN o = "raise"
+                         ELSE o = "ok" /\ r[2] = 0 /\ WCovValueOK(x, y, z, k[1] = 1, r[1])
+    [] op = "VarW"    -> IF Len(x) # Len(y) THEN Raises(o, c, DIM)
+                         ELSE /\ o = "ok" /\ r[2] = 0 /\ WCovValueOK(x, x, y, k[1] = 1, r[1])
+                              /\ r[3] = 0            \* a variance is never negative
+                              /\ r[4] = 1            \* var(x, w, u, nz) is cov(x, x, w, u, nz)
+                              /\ r[5] = 0            \* so its square root (sd) exists
     \* value is numeric (not judged); the documented DimensionException is
     [] op \in {"CovO", "CorO", "CosO", "NormWO", "MiO"} ->
          IF Len(x) # Len(y) THEN Raises(o, c, DIM) ELSE (o = "ok" \/ FreeOnEmpty)
@@ -232,7 +260,10 @@ J(t, op, x, y, z, k, o, c, r, X, Y, Z) ==
 \* exp(max) and n * exp(max)  (SumExp), and the weighted analogues
 \* max + log(wM), max + log(W)  /  wM * exp(max), W * exp(max)  with wM the weight
 \* sitting on the maximal entries and W the total weight (f.wm, f.w scaled by 4);
-\* f.eo: exp(max) overflows to +inf.
+\* f.eo: exp(max) overflows to +inf.  Unweighted log reductions also carry: f.k multiplicity of the
+\* maximum and f.c3 (r >= 4 ulps below max + log k [- log n]); f.near (n >= 2, second largest entry >= max - 30,
+\* |max| <= 100) and f.c4 (r > lower bound, strictly); f.sha (a shift c was added exactly to every entry)
+\* and f.sh (|r(v + c) - (r(v) + c)| <= 8 eps * max(|r|, |r'|, |c|)).
 WeightAt(v, w, m) == Sum([i \in Idx(v) |-> IF v[i] = m THEN w[i] ELSE 0])
 
 JLog(op, v, w, P, o, c, f) ==
@@ -242,7 +273,14 @@ JLog(op, v, w, P, o, c, f) ==
          ELSE /\ o = "ok" /\ ~f.nan /\ f.mi = Mx(v)
               /\ IF Mx(v) = 0 THEN f.ri = 0                       \* every term is log-zero => log-zero
                  ELSE IF Mx(v) = top THEN f.ri = top
-                 ELSE f.fin /\ f.c1 /\ f.c2                       \* max <= r <= max + log n, finite
+                 ELSE /\ f.fin /\ f.c1 /\ f.c2                    \* max <= r <= max + log n, finite
+                      \* every entry tied with the maximum contributes a full 1 to the shifted sum:
+                      \* r >= max + log(multiplicity of the maximum)  (less 4 ulps)
+                      /\ f.k = Count(v, Mx(v)) /\ f.c3
+                      \* a second entry within 30 of a moderate maximum is visible in the result: r > max
+                      /\ f.near => f.c4
+                      \* shifting all entries by an amount that is added exactly shifts the result (8 eps slack)
+                      /\ f.sha => f.sh
               /\ n = 1 => f.ri = v[1]
     [] op = "SumExp" ->
          IF n = 0 THEN o \in {"ok", "raise"}
